@@ -446,7 +446,7 @@ def main(argv=None) -> int:
             theorems.setdefault(t, w)
         chk.sample({'seed': name, 'alphabet': alpha, 'program_hex': sample.hex()})
     agg['bfs_distinct_theorems'] = len(theorems)
-    known = closure(chk, 2 if not thorough else 3, 11 if not thorough else 13, 10 if not thorough else 16,
+    known = closure(chk, 3, 11 if not thorough else 13, 10 if not thorough else 16,
                     400000 if not thorough else 4000000, agg, seed_theorems)
     for t, w in known.items():
         theorems.setdefault(t, w)
